@@ -20,9 +20,9 @@ Sources mirrored (line numbers of the pinned tree):
   jwe/jwe.go:682-795          NewMessageWithKW                   → `step (.newMessageKW e kw h)`
   jwe/jwe.go:849-862          Message.Encrypt                    → `step (.encrypt m kw h)`
 
-Four places of the pinned tree are under repair (DESIGN §9); both behaviours are modelled and
-selected by `Variant` (the harness probes the real code for the variant; every theorem holds for
-every variant).
+The model is of the tree after the repairs of DESIGN §9 (dir.DeriveKey returns `(key, empty)`,
+ECDH-ES direct key agreement uses the agreed key as CEK, agcmkw.WrapKey checks the length of a
+supplied iv, agcm guards `(mask, counter)` with a mutex, i.e. `GenerateIV` is atomic).
 -/
 namespace Model.Rand
 
@@ -234,18 +234,6 @@ def EncInst.encryptCheck (i : EncInst) (cekLen ivLen : Nat) : M Unit :=
 
 /-! ## key wrapping -/
 
-/-- behaviours under repair in the pinned tree; `true/false/true/false` is the pinned tree -/
-structure Variant where
-  /-- dir.DeriveKey returns `(empty, key)` instead of `(key, empty)` -/
-  dirSwap : Bool
-  /-- ecdhes.getParams finds the content encryption algorithm of a `*jwe.Header` -/
-  ecdhJwe : Bool
-  /-- ECDH-ES direct key agreement draws a random CEK (instead of using the agreed key) -/
-  ecdhDirectDraw : Bool
-  /-- agcmkw.WrapKey checks the length of a supplied iv (otherwise crypto/cipher panics) -/
-  gcmkwCheck : Bool
-deriving Repr, Inhabited
-
 /-- the header members that matter: `iv`, `p2s` (nil vs. set), `p2c` -/
 structure Hdr where
   iv : Option Bytes
@@ -283,7 +271,7 @@ deriving Repr, Inhabited
 def defaultP2C : Nat := 10000
 
 /-- `KeyWrapper.WrapKey(cek, header)` for a CEK of `cekLen` bytes; returns the updated header -/
-def kwWrap (v : Variant) (kw : KW) (cekLen : Nat) (h : Hdr) : M (Hdr × List Item) :=
+def kwWrap (kw : KW) (cekLen : Nat) (h : Hdr) : M (Hdr × List Item) :=
   match kw with
   | .akw =>
     -- akw.go:101-103
@@ -295,8 +283,8 @@ def kwWrap (v : Variant) (kw : KW) (cekLen : Nat) (h : Hdr) : M (Hdr × List Ite
       let iv ← draw .kwIV 12
       pure ({ h with iv := some iv }, [.kwIV iv false])
     else if iv.length ≠ 12 then
-      -- agcmkw.go:133 `aead.Seal` with a wrong nonce length panics unless checked first
-      (if v.gcmkwCheck then M.throw "gcmkw-iv-len" else M.panic "agcmkw.WrapKey:Seal:nonce-length")
+      -- the length of a supplied iv is checked before `aead.Seal` (which would panic)
+      M.throw "gcmkw-iv-len"
     else pure (h, [.kwIV iv true])
   | .pbes2 => do
     -- pbes2.go:113-139: `p2s == nil` ⇒ draw 32 bytes; `p2c == 0` ⇒ 10000
@@ -326,24 +314,15 @@ def CekVal.len : CekVal → Nat
 def CekVal.item : CekVal → Item
   | .drawn b => .cek b | .shared b => .cekShared b | .agreed n => .cekAgreed n
 
-/-- `KeyDeriver.DeriveKey(opts)`; `jweHeader`: opts is a `*jwe.Header` (else: an options value
-    that has all the getters ecdhes asks for) -/
-def kwDerive (v : Variant) (kw : KW) (e : Enc) (jweHeader : Bool) : M CekVal :=
+/-- `KeyDeriver.DeriveKey(opts)` -/
+def kwDerive (kw : KW) (e : Enc) : M CekVal :=
   match kw with
-  | .dir key => pure (if v.dirSwap then .shared [] else .shared key)     -- dir.go:51-53
-  | .ecdhDirect =>
-    -- ecdhes.go:150-158 getParams; 176-183 draw
-    if jweHeader && !v.ecdhJwe then M.throw "ecdh-params"
-    else if v.ecdhDirectDraw then do
-      let cek ← draw .cek e.cekSize
-      pure (.drawn cek)
-    else pure (.agreed e.cekSize)
-  | .ecdhKW =>
-    if jweHeader && !v.ecdhJwe then M.throw "ecdh-params"
-    else do
-      let cek ← draw .cek e.cekSize
-      -- ecdhes.go:180 → akw.go:101-103
-      if cek.length % 8 ≠ 0 then M.throw "akw-cek-len" else pure (.drawn cek)
+  | .dir key => pure (.shared key)                 -- dir.go DeriveKey: `return w.cek, []byte{}, nil`
+  | .ecdhDirect => pure (.agreed e.cekSize)        -- ecdhes.go DeriveKey, `w.alg.name == ""`: the agreed key
+  | .ecdhKW => do
+    -- ecdhes.go DeriveKey: `cek = make([]byte, cekSize); rand.Read(cek)`, then akw WrapKey
+    let cek ← draw .cek e.cekSize
+    if cek.length % 8 ≠ 0 then M.throw "akw-cek-len" else pure (.drawn cek)
   | _ => M.throw "not-deriver"
 
 /-! ## operations -/
@@ -383,7 +362,7 @@ def pushMsg (x : Msg) : M Nat := fun s =>
 def pushInst (g : Gcm) : M Nat := fun s =>
   Prog.ret (.ok s.insts.length, { s with insts := s.insts ++ [g] })
 
-def step (v : Variant) : Op → M (List Item)
+def step : Op → M (List Item)
   | .newGcm e =>
     match e.gcmKeyLen? with
     | some k => do let i ← pushInst (Gcm.new e k); pure [.inst i]
@@ -407,10 +386,10 @@ def step (v : Variant) : Op → M (List Item)
     | some _ => M.throw "not-cbc"
     | none => do let iv ← cbcGenerateIV; pure [.iv iv]
   | .wrapKey kw n h => do
-    let (_, items) ← kwWrap v kw n h
+    let (_, items) ← kwWrap kw n h
     pure items
   | .deriveKey kw e => do
-    let c ← kwDerive v kw e false
+    let c ← kwDerive kw e
     pure [c.item]
   | .newMessage e => do
     -- jwe.go:641-651 `enc1 := enc.New(); enc1.GenerateCEK(); enc1.GenerateIV()`; 663 Encrypt
@@ -424,7 +403,7 @@ def step (v : Variant) : Op → M (List Item)
     if kw.isDeriver then do
       -- jwe.go:702-724: DeriveKey(header); `enc1 := enc.New(); enc1.GenerateIV()`;
       -- `enc.New().Encrypt(cek, iv, …)` (a second fresh instance)
-      let c ← kwDerive v kw e true
+      let c ← kwDerive kw e
       let enc1 := e.new
       let (_, iv) ← enc1.generateIV
       (e.new).encryptCheck c.len iv.length
@@ -435,14 +414,14 @@ def step (v : Variant) : Op → M (List Item)
       let enc1 := e.new
       let (enc1, cek) ← enc1.generateCEK
       let (enc1, iv) ← enc1.generateIV
-      let (_, items) ← kwWrap v kw cek.length h
+      let (_, items) ← kwWrap kw cek.length h
       enc1.encryptCheck cek.length iv.length
       let m ← pushMsg ⟨e, cek.length, iv⟩
       pure ([.msg m, .cek cek, .iv iv] ++ items)
   | .encrypt m kw h => do
     -- jwe.go:849-862: `kw.WrapKey(msg.cek, header.Clone())`
     let x ← getMsg m
-    let (_, items) ← kwWrap v kw x.cekLen h
+    let (_, items) ← kwWrap kw x.cekLen h
     pure items
   | .bad => M.throw "bad-op"
 
@@ -458,25 +437,25 @@ structure Rec where
 /-- the draws made during the step -/
 def Rec.newDraws (r : Rec) : List Draw := r.post.log.drop r.pre.log.length
 
-def stepRun (o : Oracle) (v : Variant) (s : St) (op : Op) : Outcome (List Item) × St :=
-  (step v op).run o s
+def stepRun (o : Oracle) (s : St) (op : Op) : Outcome (List Item) × St :=
+  (step op).run o s
 
 /-- run a history (list of operations) from a state; every step is recorded -/
-def trace (o : Oracle) (v : Variant) : St → List Op → List Rec
+def trace (o : Oracle) : St → List Op → List Rec
   | _, [] => []
   | s, op :: ops =>
-    let r := stepRun o v s op
-    ⟨op, s, r.1, r.2⟩ :: trace o v r.2 ops
+    let r := stepRun o s op
+    ⟨op, s, r.1, r.2⟩ :: trace o r.2 ops
 
-def final (o : Oracle) (v : Variant) : St → List Op → St
+def final (o : Oracle) : St → List Op → St
   | s, [] => s
-  | s, op :: ops => final o v (stepRun o v s op).2 ops
+  | s, op :: ops => final o (stepRun o s op).2 ops
 
 /-- the same history as one oracle program (what the driver executes) -/
-def histProg (v : Variant) : St → List Op → Prog (List (Op × Outcome (List Item) × St))
+def histProg : St → List Op → Prog (List (Op × Outcome (List Item) × St))
   | _, [] => Prog.ret []
-  | s, op :: ops => Prog.bind (step v op s) fun r =>
-      Prog.bind (histProg v r.2 ops) fun rest => Prog.ret ((op, r.1, r.2) :: rest)
+  | s, op :: ops => Prog.bind (step op s) fun r =>
+      Prog.bind (histProg r.2 ops) fun rest => Prog.ret ((op, r.1, r.2) :: rest)
 
 /-- effect of one executed step on the list of IVs issued by agcm instance `i` in its current
     epoch: a successful `GenerateCEK` on `i` starts a new epoch, a successful `GenerateIV` on `i`
